@@ -43,7 +43,7 @@ def bell_case(draw):
     if max(abs(v) for v in phi) < 0.2:
         phi[draw(st.integers(0, n - 1))] = 1.0
     return {"nxseg": nxseg, "xi": xi, "fr": fr, "kbw": k, "phi": phi, "fs": draw(st.one_of(st.sampled_from([1.0, 100.0, 2048.0]), st.floats(0.1, 5000))),
-            "sel_off": draw(st.floats(-0.4, 0.4)), "scale": 10.0 ** draw(st.floats(-6, 6)), "method": draw(st.sampled_from(["EFDD", "FSDD"]))}
+            "sel_off": draw(st.floats(-0.4, 0.4)), "scale": 10.0 ** draw(st.one_of(st.floats(-6, 6), st.sampled_from([-20.0, -16.0, -12.0, 8.0]))), "method": draw(st.sampled_from(["EFDD", "FSDD"]))}
 
 
 def _matrix(case):
@@ -101,6 +101,19 @@ def judge_bell(case, via_class):
     j.check(mac(Phi[:, 0], phi) >= 0.999, "bell-mac", lambda: f"MAC={mac(Phi[:, 0], phi):.5f}")
     j.check(efn <= 0.025 * TIGHT, "bell-fn", lambda: f"{method}: fn={Fn[0]!r} true={fn!r} rel.err={efn:.4f} (xi={xi:.4f}, fr={case['fr']:.4f}, nxseg={nx})")
     j.check(exi <= 0.15 * TIGHT, "bell-xi", lambda: f"{method}: xi={Xi[0]!r} true={xi!r} rel.err={exi:.4f} (fr={case['fr']:.4f}, nxseg={nx}, DF2={case['kbw']:.2f} bandwidths)")
+    if not via_class:
+        # the same array object refilled with another mode's spectrum (a preallocated buffer) must be analysed afresh
+        case2 = dict(case)
+        case2["fr"] = case["fr"] * (0.8 if case["fr"] > 0.1 else 1.25)
+        freq2, Sy2, fn2, xi2, phi2 = _matrix(case2)
+        buf = Sy.copy()
+        o1 = sut(fdd.EFDD_mpe, buf, freq.copy(), dt, [sel], "per", method=method, DF1=DF1, DF2=DF2)
+        buf[...] = Sy2
+        bw2 = 2 * xi2 * fn2
+        o2 = sut(fdd.EFDD_mpe, buf, freq.copy(), dt, [fn2], "per", method=method, DF1=max(bw2, 2 * fs / nx), DF2=min(case["kbw"], 4.0) * bw2)
+        if not raised(o1) and not raised(o2):
+            j.check(abs(float(np.asarray(o2[0]).reshape(-1)[0]) - fn2) <= 0.025 * TIGHT * fn2, "bell-refilled-buffer",
+                    lambda: f"{method}: the same array refilled with a mode at {fn2:.5g} Hz is analysed as {float(np.asarray(o2[0]).reshape(-1)[0]):.5g} Hz (previous content {fn:.5g} Hz)")
     out2 = run(Sy * case["scale"])
     if j.check(not raised(out2), "efdd-scaled-raises", lambda: f"{out2!r}"):
         j.check(abs(out2[0][0] - Fn[0]) <= 1e-9 * abs(Fn[0]) and abs(out2[1][0] - Xi[0]) <= 1e-9 * abs(Xi[0]), "bell-scale",
